@@ -147,12 +147,13 @@ theorem pending_congr {st st' : State} (hs : st'.scene = st.scene) (hq : st'.que
 
 theorem inv_congr {st st' : State} (hs : st'.scene = st.scene) (hq : st'.queue = st.queue) (h : Inv st) :
     Inv st' := by
-  refine ⟨?_, ?_, ?_, ?_, ?_⟩
+  refine ⟨?_, ?_, ?_, ?_, ?_, ?_⟩
   · rw [hq]; exact h.uniq
   · rw [hq, hs]; exact h.obstRef
   · rw [hq, hs]; exact h.connRef
   · rw [hq, hs]; exact h.inactiveAdd
   · rw [hq]; exact h.endsDistinct
+  · rw [hs]; exact h.connFind
 
 /-! ### `addObst` -/
 
@@ -174,7 +175,7 @@ theorem enqueue_addObst (st : State) (j : Bool) (id : Nat) (g : Poly) (h : Inv s
                   queue := st.queue ++ [{ kind := .add, isJ := j, id := id }] } := by
     simp [enqueue, hasAct, had]
   rw [e]
-  refine ⟨⟨?_, ?_, ?_, ?_, ?_⟩, ?_⟩
+  refine ⟨⟨?_, ?_, ?_, ?_, ?_, h.connFind⟩, ?_⟩
   · exact pairwise_append_one h.uniq _ (fun b hb hc => hno b hb (by rw [hc]; rfl))
   · intro a ha hc
     simp only [findObst_append]
@@ -218,7 +219,7 @@ theorem inv_append {st : State} (h : Inv st) (a : Action)
     (hc : a.isConn = true → (findConn st.scene a.id).isSome = true)
     (hd : a.conns.Pairwise (fun u v => u.1 ≠ v.1)) :
     Inv { st with queue := st.queue ++ [a] } := by
-  refine ⟨pairwise_append_one h.uniq a hn, ?_, ?_, ?_, ?_⟩
+  refine ⟨pairwise_append_one h.uniq a hn, ?_, ?_, ?_, ?_, h.connFind⟩
   · intro b hb hbc
     simp only [List.mem_append, List.mem_singleton] at hb
     rcases hb with hb | rfl
@@ -246,7 +247,7 @@ theorem inv_mapQueue {st : State} (h : Inv st) (f : Action → Action)
     (hd : ∀ a, a.conns.Pairwise (fun u v => u.1 ≠ v.1) → (f a).conns.Pairwise (fun u v => u.1 ≠ v.1)) :
     Inv { st with queue := st.queue.map f } := by
   have hc : ∀ a, (f a).isConn = a.isConn := fun a => by unfold Action.isConn; rw [hk]
-  refine ⟨?_, ?_, ?_, ?_, ?_⟩
+  refine ⟨?_, ?_, ?_, ?_, ?_, h.connFind⟩
   · refine List.Pairwise.map f ?_ h.uniq
     intro a b hr
     unfold Rel
@@ -275,7 +276,7 @@ theorem inv_mapQueue {st : State} (h : Inv st) (f : Action → Action)
 theorem inv_filterQueue {st : State} (h : Inv st) (r : Action → Bool)
     (hadd : ∀ a, a.kind = .add → r a = true) :
     Inv { st with queue := st.queue.filter r } := by
-  refine ⟨h.uniq.filter r, ?_, ?_, ?_, ?_⟩
+  refine ⟨h.uniq.filter r, ?_, ?_, ?_, ?_, h.connFind⟩
   · intro b hb hbc
     exact h.obstRef b (List.mem_filter.1 hb).1 hbc
   · intro b hb hbc
@@ -295,7 +296,7 @@ theorem inv_filterQueue {st : State} (h : Inv st) (r : Action → Bool)
 theorem inv_mapObst {st : State} (h : Inv st) (i : Nat) (f : Obst → Obst)
     (hi : ∀ o, (f o).id = o.id) (ha : ∀ o, (f o).active = o.active) :
     Inv { st with scene := mapObst st.scene i f } := by
-  refine ⟨h.uniq, ?_, h.connRef, ?_, h.endsDistinct⟩
+  refine ⟨h.uniq, ?_, h.connRef, ?_, h.endsDistinct, h.connFind⟩
   · intro b hb hbc
     have := h.obstRef b hb hbc
     show (findObst (mapObst st.scene i f) b.id).isSome = true
@@ -489,7 +490,16 @@ theorem enqueue_newConn (st : State) (id : Nat) (h : Inv st) (hfresh : idUsed st
   have e : (enqueue st (.newConn id)).1
       = { st with scene := { st.scene with conns := st.scene.conns ++ [{ id := id }] } } := rfl
   rw [e]
-  refine ⟨⟨h.uniq, h.obstRef, ?_, h.inactiveAdd, h.endsDistinct⟩, ?_⟩
+  have hcu : ((st.scene.conns ++ [({ id := id } : Conn)]).map (·.id)).Nodup := by
+    rw [List.map_append, List.nodup_append]
+    refine ⟨h.connFind, by simp, ?_⟩
+    intro a ha b hb hab
+    simp only [List.map_cons, List.map_nil, List.mem_singleton] at hb
+    obtain ⟨k, hk, hki⟩ := List.mem_map.1 ha
+    have := List.find?_eq_none.1 (show st.scene.conns.find? (·.id == id) = none from hfc) k hk
+    simp only [beq_iff_eq] at this
+    exact this (by rw [hki, hab, hb])
+  refine ⟨⟨h.uniq, h.obstRef, ?_, h.inactiveAdd, h.endsDistinct, hcu⟩, ?_⟩
   · intro a ha hc
     have := h.connRef a ha hc
     simp only [findConn_append]
@@ -508,17 +518,17 @@ theorem enqueue_newConn (st : State) (id : Nat) (h : Inv st) (hfresh : idUsed st
 
 /-! ### `setEndpoint` -/
 
-theorem setEnd_setEnd_same (k : Conn) (e : End) (p q : Pt) : (k.setEnd e p).setEnd e q = k.setEnd e q := by
+theorem setEnd_setEnd_same (k : Conn) (e : End) (p q : CEnd) : (k.setEnd e p).setEnd e q = k.setEnd e q := by
   cases e <;> rfl
 
-theorem setEnd_comm (k : Conn) (e1 e2 : End) (p1 p2 : Pt) (hne : e1 ≠ e2) :
+theorem setEnd_comm (k : Conn) (e1 e2 : End) (p1 p2 : CEnd) (hne : e1 ≠ e2) :
     (k.setEnd e1 p1).setEnd e2 p2 = (k.setEnd e2 p2).setEnd e1 p1 := by
   cases e1 <;> cases e2 <;> first | rfl | exact absurd rfl hne
 
-theorem applyUpdates_cons (k : Conn) (u : End × Pt) (us : List (End × Pt)) :
+theorem applyUpdates_cons (k : Conn) (u : End × CEnd) (us : List (End × CEnd)) :
     k.applyUpdates (u :: us) = (k.setEnd u.1 u.2).applyUpdates us := rfl
 
-theorem applyUpdates_setEnd_comm (us : List (End × Pt)) (k : Conn) (e : End) (p : Pt)
+theorem applyUpdates_setEnd_comm (us : List (End × CEnd)) (k : Conn) (e : End) (p : CEnd)
     (hne : ∀ u ∈ us, u.1 ≠ e) :
     (k.setEnd e p).applyUpdates us = (k.applyUpdates us).setEnd e p := by
   induction us generalizing k with
@@ -528,7 +538,7 @@ theorem applyUpdates_setEnd_comm (us : List (End × Pt)) (k : Conn) (e : End) (p
       setEnd_comm k e u.1 p u.2 (fun he => hne u (List.mem_cons_self ..) he.symm)]
     exact ih _ fun v hv => hne v (List.mem_cons_of_mem _ hv)
 
-theorem applyUpdates_updFirst (us : List (End × Pt)) (k : Conn) (e : End) (p : Pt)
+theorem applyUpdates_updFirst (us : List (End × CEnd)) (k : Conn) (e : End) (p : CEnd)
     (hd : us.Pairwise fun u v => u.1 ≠ v.1) (hany : ∃ u ∈ us, u.1 = e) :
     k.applyUpdates (updFirst (fun u => u.1 == e) (fun _ => (e, p)) us) = (k.applyUpdates us).setEnd e p := by
   induction us generalizing k with
@@ -548,10 +558,11 @@ theorem applyUpdates_updFirst (us : List (End × Pt)) (k : Conn) (e : End) (p : 
       · exact absurd hve hu
       · exact ⟨v, hv', hve⟩
 
-theorem applyUpdates_addConnEndUpdate (us : List (End × Pt)) (k : Conn) (e : End) (p : Pt)
+theorem applyUpdates_addConnEndUpdate (us : List (End × CEnd)) (k : Conn) (e : End) (p : CEnd)
     (hd : us.Pairwise fun u v => u.1 ≠ v.1) :
-    k.applyUpdates (addConnEndUpdate us e p) = (k.applyUpdates us).setEnd e p := by
+    k.applyUpdates (addConnEndUpdate us e p false) = (k.applyUpdates us).setEnd e p := by
   unfold addConnEndUpdate
+  simp only [Bool.not_false, if_true]
   split
   · next hany =>
     apply applyUpdates_updFirst us k e p hd
@@ -560,7 +571,7 @@ theorem applyUpdates_addConnEndUpdate (us : List (End × Pt)) (k : Conn) (e : En
     rw [List.foldl_append]
     rfl
 
-theorem updFirst_fst (us : List (End × Pt)) (e : End) (p : Pt) :
+theorem updFirst_fst (us : List (End × CEnd)) (e : End) (p : CEnd) :
     (updFirst (fun u => u.1 == e) (fun _ => (e, p)) us).map Prod.fst = us.map Prod.fst := by
   induction us with
   | nil => rfl
@@ -569,14 +580,18 @@ theorem updFirst_fst (us : List (End × Pt)) (e : End) (p : Pt) :
     · simp [updFirst, hu]
     · simp [updFirst, beq_eq_false_iff_ne.2 hu, ih]
 
-theorem addConnEndUpdate_distinct (us : List (End × Pt)) (e : End) (p : Pt)
+theorem addConnEndUpdate_distinct (us : List (End × CEnd)) (e : End) (p : CEnd) (f : Bool)
     (hd : us.Pairwise fun u v => u.1 ≠ v.1) :
-    (addConnEndUpdate us e p).Pairwise fun u v => u.1 ≠ v.1 := by
+    (addConnEndUpdate us e p f).Pairwise fun u v => u.1 ≠ v.1 := by
   unfold addConnEndUpdate
   split
-  · have h1 : (us.map Prod.fst).Pairwise (· ≠ ·) := List.pairwise_map.2 hd
-    rw [← updFirst_fst us e p] at h1
-    exact List.pairwise_map.1 h1
+  · cases f with
+    | true => simpa using hd
+    | false =>
+      simp only [Bool.not_false, if_true]
+      have h1 : (us.map Prod.fst).Pairwise (· ≠ ·) := List.pairwise_map.2 hd
+      rw [← updFirst_fst us e p] at h1
+      exact List.pairwise_map.1 h1
   · next hany =>
     rw [List.pairwise_append]
     refine ⟨hd, List.pairwise_singleton _ _, ?_⟩
@@ -586,11 +601,11 @@ theorem addConnEndUpdate_distinct (us : List (End × Pt)) (e : End) (p : Pt)
     intro he
     exact hany (List.any_eq_true.2 ⟨u, hu, by simpa using he⟩)
 
-theorem setEnd_ends (k : Conn) (e : End) (p : Pt) :
+theorem setEnd_ends (k : Conn) (e : End) (p : CEnd) :
     ((k.setEnd e p).src, (k.setEnd e p).dst) = setEnds (k.src, k.dst) e p := by
   cases e <;> rfl
 
-theorem enqueue_setEndpoint (st : State) (c : Nat) (e : End) (p : Pt) (h : Inv st)
+theorem enqueue_setEndpoint (st : State) (c : Nat) (e : End) (p : CEnd) (h : Inv st)
     (hc : (findConn st.scene c).isSome = true) :
     Inv (enqueue st (.setEndpoint c e p)).1
       ∧ pending (enqueue st (.setEndpoint c e p)).1 = applyOp (pending st) (.setEndpoint c e p) := by
@@ -599,7 +614,7 @@ theorem enqueue_setEndpoint (st : State) (c : Nat) (e : End) (p : Pt) (h : Inv s
   | none =>
     have e0 : (enqueue st (.setEndpoint c e p)).1
         = { st with queue := st.queue ++ [{ kind := .connChange, id := c, conns := [(e, p)] }] } := by
-      simp [enqueue, hasAct, hcc]
+      simp [enqueue, modifyConnector, hasAct, hcc]
     rw [e0]
     refine ⟨inv_append h _ ?_ (fun hc => by simp [Action.isConn] at hc) (fun _ => hc) (by simp), ?_⟩
     · intro b hb hbc hi
@@ -619,17 +634,17 @@ theorem enqueue_setEndpoint (st : State) (c : Nat) (e : End) (p : Pt) (h : Inv s
     have e0 : (enqueue st (.setEndpoint c e p)).1
         = { st with queue := st.queue.map fun a =>
               if (a.kind == .connChange && a.id == c) = true
-              then { a with conns := addConnEndUpdate a.conns e p } else a } := by
-      simp only [enqueue, hasAct, hcc, Option.isSome_some, if_true]
+              then { a with conns := addConnEndUpdate a.conns e p false } else a } := by
+      simp only [enqueue, modifyConnector, hasAct, hcc, Option.isSome_some, if_true]
       rw [updFirst_eq_map _ _ _ (uniq_kind_id h.uniq .connChange c)]
     rw [e0]
     refine ⟨inv_mapQueue h _ (by intro a; split <;> rfl) (by intro a; split <;> rfl) ?_, ?_⟩
     · intro b hb
       split
-      · exact addConnEndUpdate_distinct _ _ _ hb
+      · exact addConnEndUpdate_distinct _ _ _ _ hb
       · exact hb
     · have e1 := fun k i => findAct_mapIf st.queue .connChange c
-        (fun a => { a with conns := addConnEndUpdate a.conns e p }) (fun _ => rfl) (fun _ => rfl) k i
+        (fun a => { a with conns := addConnEndUpdate a.conns e p false }) (fun _ => rfl) (fun _ => rfl) k i
       apply AScene.ext'
       · intro i
         simp only [pending, applyOp, hasAct, e1]
@@ -645,25 +660,34 @@ theorem enqueue_setEndpoint (st : State) (c : Nat) (e : End) (p : Pt) (h : Inv s
 
 /-- queueing part of every API call: keeps the invariant, and changes what the queue promises
     (`pending`) exactly as the immediate semantics `applyOp` changes the abstract scene -/
+theorem legalCall_of_legal {st : State} {op : Op} (hl : legal st op = true) : legalCall st op = true := by
+  unfold legal at hl
+  rw [Bool.and_eq_true] at hl
+  exact hl.1
+
 theorem enqueue_spec (st : State) (op : Op) (h : Inv st) (hl : legal st op = true) :
     Inv (enqueue st op).1 ∧ pending (enqueue st op).1 = applyOp (pending st) op := by
+  replace hl := legalCall_of_legal hl
   cases op with
   | addObst j id g =>
-    simp only [legal, Bool.and_eq_true, Bool.not_eq_true'] at hl
+    simp only [legalCall, Bool.and_eq_true, Bool.not_eq_true'] at hl
     exact enqueue_addObst st j id g h hl.1.2
   | moveAbs j id g fm =>
-    simp only [legal, Bool.and_eq_true, Bool.not_eq_true'] at hl
+    simp only [legalCall, Bool.and_eq_true, Bool.not_eq_true'] at hl
     exact enqMoveAbs_spec st j id g fm h hl.1.1.1 hl.1.1.2
   | moveRel j id dx dy =>
-    simp only [legal, Bool.and_eq_true, Bool.not_eq_true'] at hl
+    simp only [legalCall, Bool.and_eq_true, Bool.not_eq_true'] at hl
     exact enqueue_moveRel st j id dx dy h hl.1 hl.2
   | delete j id =>
-    simp only [legal, Bool.and_eq_true, Bool.not_eq_true'] at hl
+    simp only [legalCall, Bool.and_eq_true, Bool.not_eq_true'] at hl
     exact enqueue_delete st j id h hl.1.1 hl.1.2 hl.2
   | newConn id =>
-    simp only [legal, Bool.and_eq_true, Bool.not_eq_true'] at hl
+    simp only [legalCall, Bool.and_eq_true, Bool.not_eq_true'] at hl
     exact enqueue_newConn st id h hl.2
-  | setEndpoint c e p => exact enqueue_setEndpoint st c e p h hl
+  | setEndpoint c e p =>
+    simp only [legalCall, Bool.and_eq_true] at hl
+    exact enqueue_setEndpoint st c e p h hl.1
+  | newPin o cl xo yo => exact ⟨inv_congr (st := st) rfl rfl h, pending_congr (st := st) rfl rfl⟩
   | setTransactionUse b => exact ⟨inv_congr (st := st) rfl rfl h, pending_congr (st := st) rfl rfl⟩
   | processTransaction => exact ⟨h, rfl⟩
 
